@@ -48,4 +48,22 @@ SplitTiles(v, a) ==
           /\ UNION {Cells(ps[i]) : i \in 1 .. a.parts} = Cells(Band(v, a))
           /\ Cells(Band(v, a)) \subseteq Cells(v)
 
+(***************************************************************************)
+(* The row iterators of the view traits -- the only access path the        *)
+(* kernels use (C13).  Row i (0-based) of a view is the tag row            *)
+(* (t+i)*256 + l .. l+w-1 of the parent.                                   *)
+(***************************************************************************)
+Row(v, i) == [x \in 1 .. v.w |-> (v.t + i) * 256 + (v.l + x - 1)]
+\* iter_rows(start): rows start .. h-1 (nothing if start >= h)
+RowsFrom(v, start) == [k \in 1 .. MaxI(0, v.h - start) |-> Row(v, start + k - 1)]
+\* iter_N_rows(start, max): complete groups of n consecutive rows out of the first `max` rows from `start`
+RowGroups(v, start, max, n) ==
+    LET avail == MaxI(0, MinI(v.h - start, max))
+    IN  [g \in 1 .. avail \div n |-> [j \in 1 .. n |-> Row(v, start + (g - 1) * n + j - 1)]]
+\* iter_rows_with_step(y0, step, max): rows floor(y0 + k*step), k = 0 .. steps-1,
+\* steps = min(max, ceil((h - y0) / step));  y0 = y0n/q >= 0, step = stepn/q > 0
+RowsStep(v, y0n, stepn, q, max) ==
+    LET steps == IF v.h * q <= y0n THEN 0 ELSE MinI(max, CeilDiv(v.h * q - y0n, stepn))
+    IN  [k \in 1 .. steps |-> Row(v, (y0n + (k - 1) * stepn) \div q)]
+
 =============================================================================
